@@ -253,3 +253,19 @@ class Program:
             if not grew:
                 break
         return W
+
+
+    def may_reach(self, effect, within_prefix=None):
+        """local fn keys (named parents included) from which a member of `effect` is reachable in the call graph"""
+        seeds = set()
+        for k, v in self.calls.items():
+            for c in v["calls"]:
+                if c.get("cleanup"):
+                    continue
+                if c["callee"] in effect or (c.get("resolved") in effect):
+                    seeds.add(k)
+        out = self.callers_closure(seeds)
+        out |= {named_parent(k) for k in out}
+        if within_prefix:
+            out = {k for k in out if k.startswith(within_prefix)}
+        return out
